@@ -33,7 +33,8 @@ func init() {
 			{Name: "sched", Variant: "plain", N: core.Tiered(41*2, 41*60), Run: c05Sched},
 			{Name: "owsim-race", Variant: "plain", N: core.Tiered(32, 300), Run: c05OwsimRace, TimeoutS: 300, MaxProcs: 12},
 		},
-		RequireTags: func(string) []string { return []string{"sched:orders>=3", "race:N32"} },
+		RequireTags: func(string) []string { return []string{"race:N32"} },
+		ExpectTags:  func(string) []string { return []string{"sched:orders>=3", "owsim:two-schedules-compared"} },
 	})
 }
 
